@@ -52,6 +52,9 @@ def code_pairings(tier):
         ("rm(1,4)", {"family": "rm", "r": 1, "m": 4}, "rm_majority", False),
         ("rm(2,4)", {"family": "rm", "r": 2, "m": 4}, "rm_majority", False),
         ("cyclic(7,4)", {"family": "cyclic", "n": 7, "g": 0b1011, "h": 0b10111, "src": "g", "info": "left", "info_kind": "left"}, "syndrome", False),
+        # sibling codes: same class and (n, k) as an entry above, different code (per-class state must not leak)
+        ("cyclic(7,4),g=1101", {"family": "cyclic", "n": 7, "g": 0b1101, "h": 0b11101, "src": "g", "info": "left", "info_kind": "left"}, "syndrome", False),
+        ("hamming(7,4),right", {"family": "hamming", "mu": 3, "extended": False, "info": "right", "info_kind": "right"}, "syndrome", False),
         ("cyclic(15,11)", {"family": "cyclic", "n": 15, "g": 0b10011, "h": 0, "src": "g", "info": "right", "info_kind": "right"}, "syndrome", False),
         ("spc(5)", {"family": "spc", "k": 5}, "syndrome", False),
         ("hamming(7,4)", {"family": "hamming", "mu": 3, "extended": False, "info": "left", "info_kind": "left"}, "bp", True),
